@@ -239,25 +239,58 @@ def rule_c14_r3(model: Model) -> RuleResult:
             r.ok()
         else:
             r.fail(STRUCT, f"set_fields={unparse(sf)} ({why})", s.loc(c), "the record of supplied fields includes defaulted fields on the mapping path")
-    # from_dict_unchecked overrides the record iff one was given (is not None) and stores a copy
+    # from_dict_unchecked hands the record to the constructor, which installs a copy of it *before* __post_init__ runs: nothing
+    # rewrites the record once the hook has seen (and possibly extended) it
     fd = model.func('pane.classes._make_init.from_dict_unchecked')
     fcfg = cfg_of(model, fd)
     fnz = Normalizer(model, fd, fcfg, param_map=_pm(fd))
     r.analysed.add(fd.qualname)
     r.instances += 1
-    lits = [fnz.literal(x.ast, x) for x in fcfg.nodes if x.kind == 'cond']
-    if lits == [('$set_fields is None', False)] or lits == [('None is $set_fields', False)] or lits == [('$set_fields is None', True)] or lits == [('None is $set_fields', True)]:
-        r.ok()
+    late = [c for c in ast.walk(fd.node) if isinstance(c, ast.Call) and unparse(c.func) == 'object.__setattr__' and len(c.args) == 3
+            and fnz.expr(c.args[1], fcfg.entry) == "'__pane_set__'"]
+    ctor = [c for c in ast.walk(fd.node) if isinstance(c, ast.Call) and any(k.arg == '_pane_from_dict' for k in c.keywords)]
+    fwd = [k for c in ctor for k in c.keywords if k.arg and k.arg != '_pane_from_dict' and unparse(k.value) == 'set_fields']
+    r.sample({'from_dict_unchecked': {'constructor calls': [unparse(c)[:80] for c in ctor], 'stores after construction': len(late)}})
+    if late:
+        r.fail(fd.qualname, 'the record is stored after the instance was constructed', fd.loc(late[0]),
+               "__post_init__ has already run by then: it saw another record (every key of the dictionary, defaults included) than the "
+               "diagnostic pass and the constructor show it, and whatever it recorded by assigning attributes is overwritten - "
+               "Cls.from_data(...) and Cls(...) report different set-fields, and a hook that reads the record makes the two passes disagree")
+    elif len(ctor) != 1 or not fwd:
+        r.fail(fd.qualname, 'set_fields is not handed to the constructor', fd.loc(),
+               "the mapping path does not tell the instance which fields were supplied: all fields (defaults included) count as set")
     else:
-        r.fail(fd.qualname, f"tests {lits}", fd.loc(),
-               "the supplied record must be applied whenever it is given (`is not None`): a truthiness test ignores the empty record, "
-               "so Cls.from_data({}) reports every field as explicitly set")
+        r.ok()
+    # the constructor's from-dict branch: a copy of the given record, or of the dictionary's keys when none is given (`is None`)
     r.instances += 1
-    src = unparse(fd.node)
-    if re.search(r'set_fields\.copy\(\)|set\(set_fields\)', src):
-        r.ok()
+    kwname = fwd[0].arg if fwd else '_pane_set_fields'
+    stored = []
+    for n in cfg.live_nodes():
+        for root in node_exprs(n):
+            for c in walk_no_nested(root):
+                if isinstance(c, ast.Call) and unparse(c.func) == 'object.__setattr__' and len(c.args) == 3 \
+                        and nz.expr(c.args[1], n) == "'__pane_set__'" and not isinstance(c.args[2], ast.Name):
+                    stored.append((n, c, nz.expr(c.args[2], n)))
+                elif isinstance(c, ast.Call) and unparse(c.func) == 'object.__setattr__' and len(c.args) == 3 \
+                        and nz.expr(c.args[1], n) == "'__pane_set__'" and f"'{kwname}'" in nz.expr(c.args[2], n):
+                    stored.append((n, c, nz.expr(c.args[2], n)))
+    r.sample({'from-dict branch stores': [x[2][:120] for x in stored]})
+    good = [x for x in stored if f"'{kwname}'" in x[2]]
+    if not good:
+        r.fail(INIT, f"the constructor ignores {kwname}", f.loc(), "the record given to from_dict_unchecked never reaches the instance")
     else:
-        r.fail(fd.qualname, 'record stored without copy', fd.loc(), "the instance shares its set-field record with the caller (and with copies of itself)")
+        from .agreement import _split_phi
+        form = next((a for a in _split_phi(good[0][2]) if f"'{kwname}'" in a), good[0][2])
+        if not re.match(r'^(set|frozenset)\(', form) and '.copy()' not in form:
+            r.fail(INIT, f"record stored without copy: {form[:80]}", f.loc(good[0][1]),
+                   "the instance shares its set-field record with the caller (and with copies of itself)")
+        elif not re.search(r"(None is \$kwargs\.pop\('%s', None\)|\$kwargs\.pop\('%s', None\) is None)" % (kwname, kwname), form) \
+                and not any(re.search(r"None is \$kwargs\.pop\('%s'" % kwname, nz.literal(x.ast, x)[0]) for x in cfg.nodes if x.kind == 'cond'):
+            r.fail(INIT, f"tests {form[:100]}", f.loc(good[0][1]),
+                   "the supplied record must be applied whenever it is given (`is not None`): a truthiness test ignores the empty record, "
+                   "so Cls.from_data({}) reports every field as explicitly set")
+        else:
+            r.ok()
     return r
 
 
